@@ -1,1 +1,3 @@
 import Lemmas.Exec
+import Lemmas.ExecInv
+import Lemmas.ExecDir
